@@ -3,11 +3,26 @@ import ShuttleModel.Prim.Base
   mpsc channels — transcription of shuttle-std/src/sync/mpsc.rs (`Channel<T>`, `Sender`,
   `SyncSender`, `Receiver`).
 
-  * pure parts: `ChanState`, `senderMustBlock`, `receiverMustBlock`, `nextSenderAfterPush`, `popMessage`,
-    `dropSenderPure`, `dropReceiverPure` (state change + the `unblock`s of the same
-    `ExecutionState::with` region);
+  Two layers (same style as Prim/Sem.lean):
+  * PURE atomic transitions on `ChanState`, one per piece of code that runs without a
+    `thread::switch()` in between: `sendStart`, `sendWake`, `sendPush`, `recvStart`, `recvWake`,
+    `recvPop`, `recvAck`, `cloneSenderStep`, `dropSenderStep`, `dropReceiverStep`.  Each returns a
+    `ChanStep ρ = Except ChanPanic (ChanState × ρ × List Eff)`: the new state, the result (or the
+    next stage of the operation) and the kernel side effects (`get_mut(t).unblock()`) the Rust code
+    performs inside the same region, in order.  A Rust panic (`assert!`, `expect`, index out of
+    range) is the `Except` error; it carries the state written and the effects performed *before*
+    the panic, so that the wrappers reproduce the Rust code exactly also on those paths
+    (ShuttleProofs/C06 proves them unreachable for well-formed clients).
   * `Prog` wrappers `sendInternal`, `recvInternal`, `cloneSender`, `dropSender`, `dropReceiver`
-    with `thread::switch()` exactly where the Rust code calls it.
+    that only sequence the pure transitions, `runEffs`, the vector-clock requests and
+    `K.block` / `K.switch`, with `thread::switch()` exactly where the Rust code calls it.
+
+  The atomic segments of the Rust code are therefore
+    send, 1st segment : `sendStart` ; if `.push`: (`incClock`) `sendPush`
+    send, 2nd segment : `sendWake`  ; if `.push`: (`incClock`) `sendPush`
+    recv, 1st segment : `recvStart` ; if `.pop` : (`incClock`) `recvPop` ; `recvAck`
+    recv, 2nd segment : `recvWake`  ; if `.pop` : `recvPop` ; `recvAck`
+    clone / drop      : `cloneSenderStep` / `dropSenderStep` / `dropReceiverStep`
 -/
 namespace ShuttleModel
 
@@ -35,6 +50,44 @@ inductive RecvRes where
   | empty
   | disconnected
 deriving Repr, DecidableEq, Inhabited
+
+/-- a Rust panic in the middle of an atomic region: the message, the channel state as it had been
+written and the kernel effects already performed when the panic was raised -/
+structure ChanPanic where
+  msg : String
+  state : ChanState
+  effs : List Eff := []
+deriving Repr, Inhabited
+
+/-- result of one atomic transition: new state, result / next stage, kernel effects in order -/
+abbrev ChanStep (ρ : Type) := Except ChanPanic (ChanState × ρ × List Eff)
+
+/-- what a `send` does after its atomic prefix -/
+inductive SendStage where
+  /-- return this result -/
+  | done (r : SendRes)
+  /-- `waiting_senders.push(me); current_mut().block(false); thread::switch()` -/
+  | blocked
+  /-- go on to push the message (same atomic region) -/
+  | push
+deriving Repr, DecidableEq, Inhabited
+
+/-- what a `recv` does after its atomic prefix -/
+inductive RecvStage where
+  | done (r : RecvRes)
+  /-- `waiting_receivers.push(me); current_mut().block(false); thread::switch()` -/
+  | blocked
+  /-- go on to take the first message (same atomic region) -/
+  | pop
+deriving Repr, DecidableEq, Inhabited
+
+/-- clock work a successful push leaves to the caller: `joinRcv = some t` — update my clock with
+the clock of receiver `t` (rendezvous); `rc = some c` — update my clock with `c`, the popped front
+of `receiver_clock` (bounded, non-rendezvous) -/
+structure PushOut where
+  joinRcv : Option Nat := none
+  rc : Option Clock := none
+deriving Repr, Inhabited
 
 namespace ChanState
 
@@ -64,11 +117,95 @@ def nextSenderAfterPush (s : ChanState) : Except String (Option Nat) :=
     | none => .error "can't have waiting senders on an unbounded channel"
     | some b => .ok (if s.messages.length < b then some tid else none)
 
+/-- `waiting_x.remove(0)` followed by `assert_eq!(head, me)`: the `Except` is the two possible
+panics, the list is what remains in the queue in every case -/
+def popHead (l : List Nat) (me : Nat) : Except String Unit × List Nat :=
+  match l with
+  | [] => (.error "assertion failed: index < len", [])
+  | h :: t => (if h == me then .ok () else .error "assertion `left == right` failed", t)
+
+/-! #### `send_internal` -/
+
+/-- `send_internal` from the first `thread::switch()` to the decision *return / block / push*. -/
+def sendStart (s : ChanState) (me : Nat) (canBlock : Bool) : ChanStep SendStage :=
+  let shouldBlock := s.senderMustBlock
+  if s.knownReceivers == 0 then .ok (s, .done .disconnected, [])
+  else if shouldBlock && !canBlock then .ok (s, .done .full, [])
+  else if shouldBlock then .ok ({ s with waitingSenders := s.waitingSenders ++ [me] }, .blocked, [])
+  else .ok (s, .push, [])
+
+/-- `send_internal` after the second `thread::switch()` (the blocked sender runs again): re-check
+for a receiver, otherwise leave the queue (`remove(0)`, `assert_eq!(head, me)`). -/
+def sendWake (s : ChanState) (me : Nat) : ChanStep SendStage :=
+  if s.knownReceivers == 0 then
+    .ok ({ s with waitingSenders := s.waitingSenders.filter (· != me) }, .done .disconnected, [])
+  else
+    match popHead s.waitingSenders me with
+    | (.ok _, rest) => .ok ({ s with waitingSenders := rest }, .push, [])
+    | (.error e, rest) => .error { msg := e, state := { s with waitingSenders := rest } }
+
+/-- the rest of `send_internal`: push the message stamped with `c` (the sender's clock after
+`increment_clock`), unblock the first waiting receiver, unblock the next waiting sender if there
+is still room, pop the front of `receiver_clock`. -/
+def sendPush (s : ChanState) (v : Nat) (c : Clock) : ChanStep PushOut :=
+  let s := { s with messages := s.messages ++ [(v, c)] }
+  -- unblock the first waiting receiver; on a rendezvous channel the caller joins its clock
+  let e1 := match s.waitingReceivers.head? with
+    | some tid => [Eff.unblock tid]
+    | none => []
+  let joinRcv := if s.isRdv then s.waitingReceivers.head? else none
+  -- unblock the next waiting sender, if eligible
+  match s.nextSenderAfterPush with
+  | .error e => .error { msg := e, state := s, effs := e1 }
+  | .ok next =>
+    let e2 := match next with
+      | some tid => [Eff.unblock tid]
+      | none => []
+    -- bounded, non-rendezvous: pop the front of `receiver_clock` (the caller joins it)
+    if !s.isRdv then
+      match s.receiverClock with
+      | none => .ok (s, { joinRcv := joinRcv }, e1 ++ e2)
+      | some [] => .error { msg := "assertion failed: index < len", state := s, effs := e1 ++ e2 }
+      | some (rc :: rest) =>
+        .ok ({ s with receiverClock := some rest }, { joinRcv := joinRcv, rc := some rc }, e1 ++ e2)
+    else .ok (s, { joinRcv := joinRcv }, e1 ++ e2)
+
+/-! #### `recv_internal` -/
+
+/-- `recv_internal` from the first `thread::switch()` to the decision *return / block / pop*
+(the pre-increment of the receiver's clock follows in the two latter cases). -/
+def recvStart (s : ChanState) (me : Nat) (canBlock : Bool) : ChanStep RecvStage :=
+  let shouldBlock := s.receiverMustBlock
+  if s.messages.isEmpty && s.knownSenders == 0 then .ok (s, .done .disconnected, [])
+  else
+    -- rendezvous and empty: notify the first waiting sender (or fail a `try_recv`)
+    let (nobody, e1) :=
+      if s.isRdv && s.messages.isEmpty then
+        match s.waitingSenders.head? with
+        | some tid => (false, [Eff.unblock tid])
+        | none => (!canBlock, [])
+      else (false, [])
+    if nobody then .ok (s, .done .empty, e1)
+    else if !s.isRdv && !canBlock && s.waitingReceivers.length ≥ s.messages.length then
+      .ok (s, .done .empty, e1)
+    else if shouldBlock then
+      .ok ({ s with waitingReceivers := s.waitingReceivers ++ [me] }, .blocked, e1)
+    else .ok (s, .pop, e1)
+
+/-- `recv_internal` after the second `thread::switch()` (the blocked receiver runs again). -/
+def recvWake (s : ChanState) (me : Nat) : ChanStep RecvStage :=
+  if s.messages.isEmpty && s.knownSenders == 0 then
+    .ok ({ s with waitingReceivers := s.waitingReceivers.filter (· != me) }, .done .disconnected, [])
+  else
+    match popHead s.waitingReceivers me with
+    | (.ok _, rest) => .ok ({ s with waitingReceivers := rest }, .pop, [])
+    | (.error e, rest) => .error { msg := e, state := { s with waitingReceivers := rest } }
+
 /-- the part of `recv_internal` from `messages.remove(0)` to the two `unblock`s: new state, the
 message, the tasks to unblock in order -/
-def popMessage (s : ChanState) : Except String (ChanState × (Nat × Clock) × List Eff) :=
+def recvPop (s : ChanState) : ChanStep (Nat × Clock) :=
   match s.messages with
-  | [] => .error "assertion failed: index < len"
+  | [] => .error { msg := "assertion failed: index < len", state := s }
   | item :: rest =>
     let s := { s with messages := rest }
     match (match s.waitingSenders.head? with
@@ -76,166 +213,145 @@ def popMessage (s : ChanState) : Except String (ChanState × (Nat × Clock) × L
            | some tid => match s.bound with
              | none => Except.error "can't have waiting senders on an unbounded channel"
              | some b => Except.ok (if b > 0 || !s.waitingReceivers.isEmpty then [Eff.unblock tid] else [])) with
-    | .error e => .error e
+    | .error e => .error { msg := e, state := s }
     | .ok e1 =>
       let e2 := match s.waitingReceivers.head? with
         | some tid => if !s.messages.isEmpty then [Eff.unblock tid] else []
         | none => []
       .ok (s, item, e1 ++ e2)
 
-/-- `Drop for Sender` / `SyncSender` (the part after the `should_stop()` test) -/
-def dropSenderPure (s : ChanState) : Except String (ChanState × List Eff) :=
-  if s.knownSenders == 0 then .error "assertion failed: state.known_senders > 0"
+/-- the end of `recv_internal`: on a bounded non-rendezvous channel push `mine` (the receiver's
+clock after it has been updated with the message's) onto `receiver_clock`. -/
+def recvAck (s : ChanState) (mine : Clock) : ChanStep Unit :=
+  match s.receiverClock, s.bound with
+  | some rcs, some b =>
+    if b > 0 then
+      if !(rcs.length < b) then
+        .error { msg := "assertion failed: receiver_clock.len() < bound", state := s }
+      else .ok ({ s with receiverClock := some (rcs ++ [mine]) }, (), [])
+    else .ok (s, (), [])
+  | some _, none => .error { msg := "unexpected internal error", state := s }
+  | none, _ => .ok (s, (), [])
+
+/-! #### endpoints -/
+
+/-- `Sender::clone` / `SyncSender::clone` -/
+def cloneSenderStep (s : ChanState) : ChanStep Unit :=
+  .ok ({ s with knownSenders := s.knownSenders + 1 }, (), [])
+
+/-- `Drop for Sender` / `SyncSender`; `stop` = `ExecutionState::should_stop()` (some task is
+panicking): then nothing at all happens -/
+def dropSenderStep (s : ChanState) (stop : Bool) : ChanStep Unit :=
+  if stop then .ok (s, (), [])
+  else if s.knownSenders == 0 then
+    .error { msg := "assertion failed: state.known_senders > 0", state := s }
   else
     let s := { s with knownSenders := s.knownSenders - 1 }
-    .ok (s, if s.knownSenders == 0 then s.waitingReceivers.map Eff.unblock else [])
+    .ok (s, (), if s.knownSenders == 0 then s.waitingReceivers.map Eff.unblock else [])
 
 /-- `Drop for Receiver` -/
-def dropReceiverPure (s : ChanState) : Except String (ChanState × List Eff) :=
-  if s.knownReceivers == 0 then .error "assertion failed: state.known_receivers > 0"
+def dropReceiverStep (s : ChanState) (stop : Bool) : ChanStep Unit :=
+  if stop then .ok (s, (), [])
+  else if s.knownReceivers == 0 then
+    .error { msg := "assertion failed: state.known_receivers > 0", state := s }
   else
     let s := { s with knownReceivers := s.knownReceivers - 1 }
-    .ok (s, if s.knownReceivers == 0 then s.waitingSenders.map Eff.unblock else [])
+    .ok (s, (), if s.knownReceivers == 0 then s.waitingSenders.map Eff.unblock else [])
 
 end ChanState
 
 namespace Chan
 variable {U : Type}
 
-/-- `waiting_x.remove(0)` followed by `assert_eq!(head, me)` -/
-def popHead (l : List Nat) (me : Nat) : Except String (List Nat) × List Nat :=
-  match l with
-  | [] => (.error "assertion failed: index < len", [])
-  | h :: t => (if h == me then .ok t else .error "assertion `left == right` failed", t)
+/-- perform one atomic transition: write the state, run the effects, hand the result on — or, for
+a panic, write the state and run the effects that preceded it, then panic -/
+def step {ρ : Type} (L : Lens U ChanState) (f : ChanState → ChanStep ρ) : Prog U ρ := do
+  let s ← K.getL L
+  match f s with
+  | .ok (s', r, effs) => do
+    K.setL L s'
+    runEffs effs
+    pure r
+  | .error p => do
+    K.setL L p.state
+    runEffs p.effs
+    K.panic p.msg
+
+/-- the tail of `send_internal`: `increment_clock`, push, unblocks, clock updates -/
+def pushTail (L : Lens U ChanState) (v : Nat) : Prog U SendRes := do
+  let c ← K.incClock
+  let out ← step L (·.sendPush v c)
+  -- rendezvous: `s.update_clock(&s.get_clock(tid).clone())`
+  match out.joinRcv with
+  | some tid => do
+    let rcv ← K.clockOf tid
+    K.updateClock rcv
+  | none => pure ()
+  -- bounded: `s.update_clock(&recv_clock)`
+  match out.rc with
+  | some rc => K.updateClock rc
+  | none => pure ()
+  pure .ok
 
 /-- `Channel::send_internal(message, can_block)` -/
 def sendInternal (L : Lens U ChanState) (v : Nat) (canBlock : Bool) : Prog U SendRes := do
   K.switch
   let me ← K.me
-  let s ← K.getL L
-  let shouldBlock := s.senderMustBlock
-  if s.knownReceivers == 0 then pure .disconnected
-  else if shouldBlock && !canBlock then pure .full
-  else do
-    let blockedOut ← (if shouldBlock then do
-        K.setL L { s with waitingSenders := s.waitingSenders ++ [me] }
-        K.block false
-        K.switch
-        let s ← K.getL L
-        if s.knownReceivers == 0 then do
-          K.setL L { s with waitingSenders := s.waitingSenders.filter (· != me) }
-          pure true
-        else
-          match popHead s.waitingSenders me with
-          | (.ok _, rest) => do K.setL L { s with waitingSenders := rest }; pure false
-          | (.error e, rest) => do K.setL L { s with waitingSenders := rest }; K.panic e
-      else pure false : Prog U Bool)
-    if blockedOut then pure .disconnected else do
-    let c ← K.incClock
-    let s ← K.getL L
-    let s := { s with messages := s.messages ++ [(v, c)] }
-    K.setL L s
-    -- unblock the first waiting receiver; on a rendezvous channel join its clock
-    match s.waitingReceivers.head? with
-    | some tid => do
-      K.unblock tid
-      if s.isRdv then do
-        let rcv ← K.clockOf tid
-        K.updateClock rcv
-      else pure ()
-    | none => pure ()
-    -- unblock the next waiting sender, if eligible
-    match s.nextSenderAfterPush with
-    | .error e => K.panic e
-    | .ok (some tid) => K.unblock tid
-    | .ok none => pure ()
-    -- bounded, non-rendezvous: pop the front of `receiver_clock` and join it
-    if !s.isRdv then
-      match s.receiverClock with
-      | none => pure ()
-      | some [] => K.panic "assertion failed: index < len"
-      | some (rc :: rest) => do
-        K.setL L { s with receiverClock := some rest }
-        K.updateClock rc
-    else pure ()
-    pure .ok
+  let st ← step L (·.sendStart me canBlock)
+  match st with
+  | .done r => pure r
+  | .push => pushTail L v
+  | .blocked => do
+    K.block false
+    K.switch
+    let st ← step L (·.sendWake me)
+    match st with
+    | .done r => pure r
+    | _ => pushTail L v
+
+/-- the tail of `recv_internal`: take the message, unblocks, clock updates -/
+def popTail (L : Lens U ChanState) (me : Nat) : Prog U RecvRes := do
+  let (v, mc) ← step L (·.recvPop)
+  -- `get_clock_mut(me).update(&clock)` (no increment)
+  K.joinClockOf me mc
+  let mine ← K.clock
+  step L (·.recvAck mine)
+  pure (.ok v)
 
 /-- `Channel::recv_internal(can_block)` -/
 def recvInternal (L : Lens U ChanState) (canBlock : Bool) : Prog U RecvRes := do
   K.switch
   let me ← K.me
-  let s ← K.getL L
-  let shouldBlock := s.receiverMustBlock
-  if s.messages.isEmpty && s.knownSenders == 0 then pure .disconnected
-  else do
-    -- rendezvous and empty: notify the first waiting sender (or fail a `try_recv`)
-    let nobody ← (if s.isRdv && s.messages.isEmpty then
-        match s.waitingSenders.head? with
-        | some tid => do K.unblock tid; pure false
-        | none => pure (!canBlock)
-      else pure false : Prog U Bool)
-    if nobody then pure .empty
-    else if !s.isRdv && !canBlock && s.waitingReceivers.length ≥ s.messages.length then pure .empty
-    else do
-      -- pre-increment of the receiver's clock
-      let _ ← K.incClock
-      let blockedOut ← (if shouldBlock then do
-          K.setL L { s with waitingReceivers := s.waitingReceivers ++ [me] }
-          K.block false
-          K.switch
-          let s ← K.getL L
-          if s.messages.isEmpty && s.knownSenders == 0 then do
-            K.setL L { s with waitingReceivers := s.waitingReceivers.filter (· != me) }
-            pure true
-          else
-            match popHead s.waitingReceivers me with
-            | (.ok _, rest) => do K.setL L { s with waitingReceivers := rest }; pure false
-            | (.error e, rest) => do K.setL L { s with waitingReceivers := rest }; K.panic e
-        else pure false : Prog U Bool)
-      if blockedOut then pure .disconnected else do
-      let s ← K.getL L
-      match s.popMessage with
-      | .error e => K.panic e
-      | .ok (s', (v, mc), effs) =>
-        K.setL L s'
-        runEffs effs
-        -- `get_clock_mut(me).update(&clock)` (no increment)
-        K.joinClockOf me mc
-        match s'.receiverClock, s'.bound with
-        | some rcs, some b =>
-          if b > 0 then
-            if !(rcs.length < b) then K.panic "assertion failed: receiver_clock.len() < bound"
-            else do
-              let mine ← K.clock
-              K.setL L { s' with receiverClock := some (rcs ++ [mine]) }
-          else pure ()
-        | some _, none => K.panic "unexpected internal error"
-        | none, _ => pure ()
-        pure (.ok v)
+  let st ← step L (·.recvStart me canBlock)
+  match st with
+  | .done r => pure r
+  | .pop => do
+    -- pre-increment of the receiver's clock
+    let _ ← K.incClock
+    popTail L me
+  | .blocked => do
+    let _ ← K.incClock
+    K.block false
+    K.switch
+    let st ← step L (·.recvWake me)
+    match st with
+    | .done r => pure r
+    | _ => popTail L me
 
 /-- `Sender::clone` / `SyncSender::clone` — no scheduling point -/
-def cloneSender (L : Lens U ChanState) : Prog U Unit := do
-  let s ← K.getL L
-  K.setL L { s with knownSenders := s.knownSenders + 1 }
+def cloneSender (L : Lens U ChanState) : Prog U Unit :=
+  step L (·.cloneSenderStep)
 
 /-- `Drop for Sender` / `SyncSender`: nothing at all when `should_stop()` (some task is
 panicking); no scheduling point -/
 def dropSender (L : Lens U ChanState) : Prog U Unit := do
   let stop ← K.isPanicking
-  if stop then pure () else do
-    let s ← K.getL L
-    match s.dropSenderPure with
-    | .error e => K.panic e
-    | .ok (s', effs) => do K.setL L s'; runEffs effs
+  step L (·.dropSenderStep stop)
 
 /-- `Drop for Receiver` -/
 def dropReceiver (L : Lens U ChanState) : Prog U Unit := do
   let stop ← K.isPanicking
-  if stop then pure () else do
-    let s ← K.getL L
-    match s.dropReceiverPure with
-    | .error e => K.panic e
-    | .ok (s', effs) => do K.setL L s'; runEffs effs
+  step L (·.dropReceiverStep stop)
 
 end Chan
 end ShuttleModel
